@@ -179,6 +179,52 @@ class Recorder:
                 elif which == "ndim":
                     if hasattr(type(h), "n_dim"):  # collections do not offer n_dim / datatype
                         h.n_dim, h.datatype
+            elif kind == "View":
+                h = O[op["a"]]
+                P_ = self.pi
+                lo = self.g.pos(op["qlo"]) if op["hasLo"] else None
+                hi = self.g.pos(op["qhi"]) if op["hasHi"] else None
+                xs = [self.g.pos(x) for x in op["xs"]]
+                from .project import num as _num
+
+                res = {"nb": -1, "ent": [], "edges": [], "centers": [], "xent": [], "width": []}
+                extra["res"] = res
+                res["nb"] = int(h.num_bins(lo, hi))
+                res["ent"] = [_num(v) for v in h.bin_entries(lo, hi)]
+                res["edges"] = [P_.pos(v) for v in h.bin_edges(lo, hi)]
+                res["centers"] = [P_.pos(v) for v in h.bin_centers(lo, hi)]
+                res["xent"] = [_num(v) for v in h.bin_entries(xvalues=xs)] if xs else []
+                if h.name in ("Bin", "SparselyBin"):
+                    res["width"] = [P_.width(h.bin_width())]
+            elif kind == "CatView":
+                h = O[op["a"]]
+                from .project import num as _num
+
+                res = {"labels": [], "ent": [], "probe": list(op["probe"]), "pent": [], "mpv": ""}
+                extra["res"] = res
+                res["labels"] = [str(v) for v in h.bin_labels()]
+                res["ent"] = [_num(v) for v in h.bin_entries()]
+                res["pent"] = [_num(v) for v in h.bin_entries(labels=list(op["probe"]))] if op["probe"] else []
+                if len(h.bins) > 0:
+                    res["mpv"] = str(h.mpv)
+            elif kind == "Grid2D":
+                h = O[op["a"]]
+                P_ = self.pi
+                from .project import num as _num
+
+                res = {"grid": [], "projx": [], "projy": [], "xr": [], "yr": [], "projxm": {}, "projym": {}}
+                extra["res"] = res
+                xr, yr, grid = h.xy_ranges_grid()
+                res["grid"] = [[_num(v) for v in row] for row in grid.tolist()]
+                px, py = h.project_on_x(), h.project_on_y()
+                if h.name == "Bin":
+                    res["xr"] = [P_.pos(v) for v in xr]
+                    res["yr"] = [P_.pos(v) for v in yr]
+                    res["projx"] = [_num(v.entries) for v in px.values]
+                    res["projy"] = [_num(v.entries) for v in py.values]
+                else:
+                    res["projxm"] = {str(int(k)): _num(v.entries) for k, v in px.bins.items()}
+                    res["projym"] = {str(int(k)): _num(v.entries) for k, v in py.bins.items()}
             elif kind == "Doc":
                 from .doc import tag
 
@@ -201,6 +247,8 @@ class Recorder:
         if kind == "FillNumpy":
             extra["inputs_unchanged"] = arg["data"].tobytes() == arg["before"] and (
                 "wb" not in arg or arg["w"].tobytes() == arg["wb"])
+        if kind in ("View", "CatView", "Grid2D") and "res" not in extra:
+            extra["res"] = {}
         if kind == "Doc" and "doc" not in extra:
             extra["doc"] = {"j": "str", "v": "-"}
         if kind == "Eq" and "res" not in extra:
